@@ -8,6 +8,8 @@ Case (plain data):
   tree    : ["S", env, [[key, node], ...]] | ["F", env]        env in None / True / "name" / False
   path    : keys from the root to the field under test (the only non-IntField leaf)
   kind    : ["int", lo, hi] | ["str", maxlen] | ["bool"] | ["list"] | ["dict"] | ["chal", has_default]
+            | ["raise", "validator"|"subclass", exception name]: a string field whose `validator=` callable /
+              own Field subclass `_validate` raises that exception on the text "boom"
   default : the field's default (plaintext for a challenge field)
   environ : {name: value}   the whole process environment of the case
   ops     : ["build"] | ["load", n, value] | ["assign", value] | ["reset"]
@@ -142,6 +144,8 @@ def accept(kind, v):
         return (True, v) if isinstance(v, dict) else (False, None)
     if k == "chal":
         return (True, ("digest", v)) if isinstance(v, str) else (False, None)
+    if k == "raise":
+        return (True, v) if isinstance(v, str) and v != "boom" else (False, None)
     raise Broken("kind %r" % (kind,))
 
 
@@ -177,6 +181,17 @@ KIND_DATA = {
     "chal1": (["chal", True], "pw", "envpw", "envpw", "l1", "a2", "l3", 5),
     "chal0": (["chal", False], None, "envpw", "envpw", "l1", "a2", "l3", 5),
 }
+
+
+# fields whose validation of a text raises something other than ValueError: the library must still wrap it
+EXC_NAMES = ["ValueError", "TypeError", "KeyError", "ZeroDivisionError", "OSError", "Custom"]
+EXC_ERRK = {"ValueError": "EValue", "TypeError": "EType", "KeyError": "EKey", "ZeroDivisionError": "EOtherExn",
+            "OSError": "EOS", "Custom": "EOtherExn"}
+BASE_KINDS = list(KIND_DATA)
+for _how in ("validator", "subclass"):
+    for _exc in EXC_NAMES:
+        KIND_DATA["raise-%s-%s" % (_how, _exc)] = (["raise", _how, _exc], "dflt", "fine", "boom", "l1", "a2", "l3", "boom")
+RAISE_KINDS = [k for k in KIND_DATA if k.startswith("raise-")]
 
 
 def path_tree(root_env, mids, fenv, siblings=True):
@@ -254,7 +269,7 @@ def generate(rng, tier):
     for r in SETTINGS_ROOT:
         for f in SETTINGS_FIELD:
             for st in states1:
-                for kname in KIND_DATA:
+                for kname in BASE_KINDS:
                     tree, path = path_tree(r, [], f)
                     cases.append(make_case(tree, path, kname, st, std_ops(kname, 1), styles[n % 3], "matrix1"))
                     n += 1
@@ -278,6 +293,14 @@ def generate(rng, tier):
                     for st in sts:
                         tree, path = path_tree(r, [m1, m2], f, siblings=False)
                         cases.append(make_case(tree, path, "int", st, std_ops("int", 3)[:6], styles[n % 3], "matrix3"))
+                    n += 1
+    # validation chains that raise arbitrary exceptions on the variable's text, depth 1-3, bound four ways
+    for depth in (1, 2, 3):
+        for r, m, f in [(True, None, None), ("APP", None, None), (None, None, "FV"), (False, True, True)]:
+            for kname in RAISE_KINDS:
+                for st in ("invalid", "valid", "unset"):
+                    tree, path = path_tree(r, [m] * (depth - 1), f, siblings=(depth == 1))
+                    cases.append(make_case(tree, path, kname, st, std_ops(kname, depth), styles[n % 3], "raise%d" % depth))
                     n += 1
     # random: deeper, odd names, random histories
     for _ in range(1500 if tier == "quick" else 30000):
@@ -330,7 +353,7 @@ def random_case(rng):
     kids.insert(rng.randrange(len(kids) + 1), node)
     tree = ["S", root_env, kids]
     path = keys + [fkey]
-    kname = rng.choice(["int", "int", "int", "str", "bool", "list", "dict", "chal1", "chal0"])
+    kname = rng.choice(["int", "int", "int", "str", "bool", "list", "dict", "chal1", "chal0", rng.choice(RAISE_KINDS)])
     kind, default, valid, invalid, v1, v2, v3, bad = KIND_DATA[kname]
     if kname == "int":
         valid = rng.choice(["7", " 42 ", "+5", "1_0", "100", "0", "-0"])
@@ -397,6 +420,8 @@ def g_kind(kind):
         return "(KStr %s)" % g_opt(kind[1], g_z)
     if k == "chal":
         return "(KChal %s)" % ("true" if kind[1] else "false")
+    if k == "raise":
+        return "(KRaise %s)" % EXC_ERRK[kind[2]]
     return {"bool": "KBool", "list": "KList", "dict": "KDict"}[k]
 
 
@@ -455,7 +480,13 @@ def _errkind(e):
         return "attribute"
     if isinstance(e, KeyError):
         return "key"
+    if isinstance(e, OSError):
+        return "os"
     return "other"
+
+
+class _CustomError(Exception):
+    pass
 
 
 def _make_field(case, env):
@@ -474,6 +505,25 @@ def _make_field(case, env):
         return DictField(default=lambda: dict(d), env=env)
     if k == "chal":
         return ChallengeField("sha256", default=d, env=env)
+    if k == "raise":
+        from cincoconfig.core import Field
+        exc = _CustomError if kind[2] == "Custom" else getattr(__import__("builtins"), kind[2])
+
+        def chk(cfg, value):
+            if value == "boom":
+                raise exc("boom")
+            return value
+        if kind[1] == "validator":
+            return StringField(default=d, env=env, validator=chk)
+
+        class TextField(Field):
+            storage_type = str
+
+            def _validate(self, cfg, value):
+                if not isinstance(value, str):
+                    raise ValueError("not a string")
+                return chk(cfg, value)
+        return TextField(default=d, env=env)
     raise Broken("kind")
 
 
@@ -760,6 +810,8 @@ def tags(case, obs):
     for e in chain:
         t.add("mid:" + _sk(e))
     t.add("kind:" + case["kind"][0])
+    if case["kind"][0] == "raise":
+        t.add("raises:%s via %s" % (case["kind"][2], case["kind"][1]))
     exp = bound(expected_names(tree)[".".join(path)])
     t.add("bound" if exp else "unbound")
     t.add("env:" + case.get("envstate", "?") + ("" if exp else "(unbound)"))
